@@ -65,6 +65,14 @@ Definition sp_prim (p : prim) (pa : path) (bs : list Z) : option (sv * Z * list 
   | None => None
   end.
 
+(** sanity guard used where readings are composed: what is left over is never longer than what was given
+    (always true of the readers below; having it checked keeps the length reasoning local) *)
+Definition chk {A} (bs : list Z) (r : option (A * list Z)) : option (A * list Z) :=
+  match r with
+  | Some (v, rest) => if Nat.leb (List.length rest) (List.length bs) then Some (v, rest) else None
+  | None => None
+  end.
+
 Section Spec.
   Variable T : tables.
 
@@ -74,7 +82,7 @@ Section Spec.
     match n with
     | O => Some ([], bs)
     | S n' =>
-        match f (pindex pa i) bs with
+        match chk bs (f (pindex pa i) bs) with
         | Some (v, r) =>
             match sp_elems f pa n' (i + 1) r with
             | Some (vs, r') => Some (v :: vs, r')
@@ -101,7 +109,7 @@ Section Spec.
         match fuel with
         | O => None
         | S fuel' =>
-            match f (pindex pa i) bs with
+            match chk bs (f (pindex pa i) bs) with
             | Some (v, r) =>
                 match sp_until_empty f pa fuel' (i + 1) r with
                 | Some vs => Some (v :: vs)
@@ -193,7 +201,7 @@ Section Spec.
     match fs with
     | FNil => Some ([], bs)
     | FPlain n t r =>
-        match sp_ty t (pchild pa n) None false bs with
+        match chk bs (sp_ty t (pchild pa n) None false bs) with
         | Some (v, r1) =>
             let pv := match v with SPrim _ p z => Some (pname p, z) | _ => None end in
             match sp_fields r pa ((n, pv) :: rvals) r1 with
@@ -205,9 +213,9 @@ Section Spec.
     | FList n elem r =>
         match rvals with
         | (_, Some (_, count)) :: _ =>          (* the count directly precedes the list *)
-            match sp_counted (fun p b => sp_ty elem p None false b) (list_id elem) (pchild pa n) count bs with
+            match chk bs (sp_counted (fun p b => sp_ty elem p None false b) (list_id elem) (pchild pa n) count bs) with
             | Some (v, r1) =>
-                match sp_fields r pa rvals r1 with
+                match sp_fields r pa ((n, None) :: rvals) r1 with
                 | Some (vs, r2) => Some (v :: vs, r2)
                 | None => None
                 end
@@ -218,9 +226,10 @@ Section Spec.
     | FUnion n seln u r =>
         match lookupS seln rvals with
         | Some (Some tz) =>
-            match sp_ty u (pchild pa n) (Some tz) false bs with
+            match chk bs (sp_ty u (pchild pa n) (Some tz) false bs) with
             | Some (v, r1) =>
-                match sp_fields r pa ((n, None) :: rvals) r1 with
+                let pv := match v with SPrim _ p z => Some (pname p, z) | _ => None end in
+                match sp_fields r pa ((n, pv) :: rvals) r1 with
                 | Some (vs, r2) => Some (v :: vs, r2)
                 | None => None
                 end
@@ -236,12 +245,12 @@ Section Spec.
         if String.eqb n target then
           match p with
           | PNone => Some ([], bs)
-          | PTy t => match sp_ty t (pchild pa n) None false bs with
+          | PTy t => match chk bs (sp_ty t (pchild pa n) None false bs) with
                      | Some (v, r1) => Some ([v], r1)
                      | None => None
                      end
           | PList elem (Some cnt) =>
-              match sp_counted (fun p b => sp_ty elem p None false b) (list_id elem) (pchild pa n) cnt bs with
+              match chk bs (sp_counted (fun p b => sp_ty elem p None false b) (list_id elem) (pchild pa n) cnt bs) with
               | Some (v, r1) => Some ([v], r1)
               | None => None
               end
